@@ -268,6 +268,7 @@ PROBES = [
     ('dynamic-actions-list', 'QCheckBox { id: src }\n  QMenu { id: menu; actions: src.checked ? [a, b] : [b, a]\n   QAction { id: a }\n   QAction { id: b }\n  }', None),
     ('attached-dynamic', 'QCheckBox { id: src }\n  QLabel { id: lab; QVBoxLayout.stretch: src.checked ? 1 : 2 }', None),
     ('mixed', 'QCheckBox { id: src; onToggled: lab.setEnabled(false) }\n  QLabel { id: lab; text: "x"; visible: src.checked; font.bold: src.checked }', None),
+    ('callback-with-return-annotation', 'QPushButton { id: btn; onClicked: function(): void { btn.setEnabled(false) } }', None),
 ]
 
 
@@ -326,8 +327,10 @@ def replay(workdir):
     if drv is None:
         return False, {'failed_probes': [], 'error': 'replay driver does not build: ' + err}
     failed = []
-    for name, body, _ in PROBES:
-        text = f'import qmluic.QtWidgets\nQWidget {{\n QVBoxLayout {{\n  {body}\n }}\n}}\n'
+    versioned = [(n + '+warning', b, x) for n, b, x in PROBES]          # a versioned import only warns
+    for name, body, _ in PROBES + versioned:
+        imp = 'import qmluic.QtWidgets 6.2' if name.endswith('+warning') else 'import qmluic.QtWidgets'
+        text = f'{imp}\nQWidget {{\n QVBoxLayout {{\n  {body}\n }}\n}}\n'
         with open(os.path.join(workdir, f'{name}.qml'), 'w') as f:
             f.write(text)
         r = subprocess.run([drv], input=text, capture_output=True, text=True, timeout=60)
